@@ -439,11 +439,8 @@ def service_restart_case(pr):
         if not pr.wait_for(lambda: len(_pids(pr, "svc")) > n, WAIT):
             return {"property": "C06", "expected": "a change to the service's input restarts it", "observed": "no restart in %ss; log %s" % (WAIT, pr.log()), "output": pr.output_of(p)[-400:]}
         time.sleep(0.4)
-    if "overlap svc" in pr.log():
-        return {"property": "C11", "expected": "a restart stops the old instance before starting the new one", "observed": "log %s" % pr.log()}
+    overlap = "overlap svc" in pr.log()
     alive = [q for q in _pids(pr, "svc") if _alive(q)]
-    if len(alive) > 1:
-        return {"property": "C11", "expected": "at most one instance alive", "observed": "alive: %s" % alive}
     time.sleep(0.5)
     os.kill(p.pid, signal.SIGTERM)
     if not pr.wait_exit(p, 8):
@@ -452,6 +449,10 @@ def service_restart_case(pr):
     left = [q for q in _pids(pr, "svc") if _alive(q)]
     if left:
         return {"property": ["C10", "C11"], "expected": "after two restarts and SIGTERM no instance of the service is left (%d were started)" % len(_pids(pr, "svc")), "observed": "pid(s) %s still alive" % left, "output": pr.output_of(p)[-300:]}
+    if overlap:
+        return {"property": "C11", "expected": "a restart stops the old instance before starting the new one", "observed": "log %s" % pr.log()}
+    if len(alive) > 1:
+        return {"property": "C11", "expected": "at most one instance alive", "observed": "alive before SIGTERM: %s" % alive}
     return None
 
 
@@ -644,6 +645,27 @@ def watch_dot_path_case(pr):
     return None
 
 
+def watch_unfiltered_resource_case(pr):
+    """a target with filtered resources and one without filter: a change to a file of the unfiltered one triggers it"""
+    pr.write("src/in.txt", "v0")
+    pr.write("conf/settings", "s0")
+    pr.write("src/assets/logo.png", "p")
+    t = _copy_target(ext=["txt"], extra_inputs=[{"paths": ["src/assets"], "extensions": ["png"]}, {"paths": ["conf"]}])
+    pr.write("zinoma.yml", yml({"t": t}))
+    p = _start_watch(pr, "t")
+    if not _wait_builds(pr, "t", 1):
+        return None
+    time.sleep(0.5)
+    for (f, txt) in (("conf/settings", "s1-longer"), ("src/in.txt", "v1"), ("conf/settings", "s2-longer-still")):
+        n = pr.count("s t")
+        pr.edit(f, txt)
+        if not pr.wait_for(lambda: pr.count("s t") > n, WAIT):
+            return {"property": ["C06", "C16"], "expected": "a change to %s (a declared input; conf has no extension filter) re-runs the target" % f, "observed": "no new start in %ss" % WAIT, "output": pr.output_of(p)[-400:]}
+        pr.wait_for(lambda: pr.count("e t") >= pr.count("s t"), WAIT)
+        time.sleep(0.5)
+    return None
+
+
 def cases(seed, tier="quick"):
     C = lambda n, fn, what: Case("live", n, fn, what)
     return [
@@ -655,6 +677,7 @@ def cases(seed, tier="quick"):
         C("watch-edit-during-failing-build", watch_edit_during_failing_build_case, "change during a failing build is not forgotten"),
         C("watch-fail-while-other-dep-building", watch_fail_while_other_dep_building_case, "a dependency fails its rebuild while the dependent waits for another one"),
         C("watch-failed-dep-late-requester", watch_failed_dep_late_requester_case, "a late requester of a failed dependency is not acknowledged"),
+        C("watch-unfiltered-resource", watch_unfiltered_resource_case, "an unfiltered resource next to filtered ones"),
         C("watcher-filter", watcher_filter_case, "irrelevant changes never trigger; unusual names do not stop the watcher; nested filtered path and removals trigger"),
         C("sigterm-during-build", signal_during_build_case(signal.SIGTERM, False), "SIGTERM during a 60 s build"),
         C("sigint-during-build", signal_during_build_case(signal.SIGINT, False), "SIGINT during a 60 s build"),
